@@ -62,6 +62,7 @@ def edit_case(draw, kind):
         # boundary (after '*', after 'typedef', before ';', around ':' '=' ',' braces, ...) is visited in most cases
         case["inserts"] = [[draw(st.integers(0, 10_000)), draw(st.integers(0, len(defset.TRIVIA) - 1)), draw(st.integers(0, len(BOUNDARY_CLASSES)))] for _ in range(draw(st.integers(1, 8)))]
         case["crlf"] = draw(st.integers(0, 5)) == 0
+        case["compact"] = kind == "trivia" and draw(st.integers(0, 4)) == 0  # instead of adding trivia: remove every blank C does not need
     if kind in ("order", "mixed"):
         case["perm"] = [draw(st.integers(0, 1000)) for _ in items]
     if kind in ("split", "mixed"):
@@ -196,6 +197,9 @@ def run_case(case, ctx):
             ins_count += 1
             has_comment = has_comment or "/" in tr
         edited = defset.join(toks, inserts, crlf=case.get("crlf", False))
+        if case.get("compact"):
+            edited = defset.join_compact(toks)
+            ctx.count("edit:compact(no optional blanks)")
         texts = [edited]
     else:
         texts = ["".join(texts_items)]
@@ -357,6 +361,43 @@ def _run_aliases(case, ctx, m):
     r = _with_watchdog(lambda: cs.resolve(cyc[0]))
     if r == "HANG" or not (isinstance(r, Err) and r.type == "ResolveError"):
         raise Violation("cyclic-alias", f"resolve of a {len(cyc)}-cycle of aliases gave {r!r} instead of ResolveError")
+    # ... reached from a tail (R1 -> R0 -> C0 -> C1 -> ... -> C0), and aliases of an unknown name (D1 -> D0 -> nosuch):
+    # every way of referring to them is a resolve error
+    cs.typedefs["R0"] = cyc[0]
+    cs.typedefs["R1"] = "R0"
+    cs.typedefs["D0"] = "nosuch_type"
+    cs.typedefs["D1"] = "D0"
+    for bad in ("R1", "R0", "D1", "D0", cyc[-1]):
+        forms = (
+            ("resolve", lambda bad=bad: cs.resolve(bad)), ("attribute", lambda bad=bad: getattr(cs, bad)), ("typedef", lambda bad=bad: cs.load(f"typedef {bad} Z_{bad};\n")),
+            ("field", lambda bad=bad: cs.load(f"struct X_{bad} {{ {bad} f; }};\n")), ("array-field", lambda bad=bad: cs.load(f"struct Y_{bad} {{ {bad} f[2]; }};\n")),
+            ("enum-base", lambda bad=bad: cs.load(f"enum E_{bad} : {bad} {{ EA_{bad} = 1 }};\n")), ("read", lambda bad=bad: cs.read(bad, b"\x00" * 8)),
+        )
+        for form, call in forms:
+            r = _with_watchdog(call)
+            if r == "HANG" or not (isinstance(r, Err) and r.type == "ResolveError"):
+                raise Violation("cyclic-alias" if bad[0] in "RC" else "unknown-alias", f"reference to {bad!r} (alias chain ending in {'a cycle' if bad[0] in 'RC' else 'an unknown name'}) through {form}: {r!r} instead of ResolveError")
+    for nm in ("R0", "R1", "D0", "D1", *cyc):
+        cs.typedefs.pop(nm, None)
+    # an alias name re-used by a definition of another type is refused; the same target through another spelling is accepted
+    a0 = names[0]
+    diff = [f"enum {a0} {{ RX = 1 }};", f"flag {a0} {{ RY = 1 }};", f"struct {a0} {{ uint8 zz; uint8 yy; uint8 xx; }};", f"union {a0} {{ uint8 zz; uint64 yy; }};",
+            f"typedef struct {{ uint8 zz; uint8 yy; uint8 xx; }} {a0};", f"typedef struct _t9 {{ uint8 zz; uint8 yy; uint8 xx; }} T9, {a0};", f"struct S9 {{ uint8 zz; uint8 yy; uint8 xx; }} {a0};", "enum DWORD { RZ = 1 };"]
+    if case["depth"] >= 1 and base != "S":
+        for text in diff:
+            r = lib(cs.load, text + "\n")
+            if not isinstance(r, Err):
+                raise Violation("different-target-redeclaration-accepted", f"{text!r} was accepted although {a0 if 'DWORD' not in text else 'DWORD'} already names {base if 'DWORD' not in text else 'uint32'!r}")
+        if cs.resolve(a0) is not target or cs.resolve("DWORD") is not cs.resolve("uint32"):
+            raise Violation("alias-rebound", f"a refused re-declaration changed what {a0} / DWORD resolve to")
+        same = [f"typedef {names[-1]} {a0};", f"typedef {a0} {names[-1]};"]
+        for text in same:
+            r = lib(cs.load, text + "\n")
+            if isinstance(r, Err):
+                raise Violation("same-target-redeclaration-rejected", f"{text!r} (both names already mean {base!r}): {r}", r.where)
+        if cs.resolve(a0) is not target or cs.resolve(names[-1]) is not target:
+            raise Violation("alias-rebound", f"an accepted same-target re-declaration changed what {a0}/{names[-1]} resolve to")
+        ctx.count("aliases:redeclared-by-definition")
     ctx.count(f"aliases:depth:{case['depth']}")
     ctx.count("aliases:via:" + case["via"])
     ctx.mark_nontrivial(case)
